@@ -21,13 +21,13 @@ CFG = dict(
         "SetDuration transmits the server's resulting jitter AND sleep (not its arguments): 'takes effect = apply_order' is proved for it under the hypothesis that the two views agreed on "
         "jitter and sleep before and the jitter is a percentage; exact application of in-domain values (jitter 0..100, sleep > 0) is proved without that hypothesis",
     ],
-    level_text="38 theorems over the Gallina model of writeDeviceInfo/readDeviceInfo (six kinds), the Machine/Network/Address/WorkHours/KeyPair codecs, the server setters "
+    level_text="41 theorems over the Gallina model of writeDeviceInfo/readDeviceInfo (six kinds), the Machine/Network/Address/WorkHours/KeyPair codecs, the server setters "
                "SetDuration/SetKillDate/SetWorkHours and task.Duration/KillDate/WorkHours, the client MvTime handler and handleInfoResult, for ALL setting values: every kind written by the "
                "writer's field list is read back by the reader's field list (two separate Go functions) from a packet and from a stream over EVERY split into non-empty short reads, leaving "
                "exactly the trailing bytes; the stream reader equals the packet reader on every input; settings/identity/key material arrive field by field (kill date at one-second resolution); "
                "an ordered change makes the client apply_order(client, order) with the clamps spelled out, in-domain values are applied exactly, the exchange completes, and after the echo the "
                "server's view equals the client's; the attached proxy is state: after any history of NewProxy/Replace/Close/MvProxy operations every kind carries exactly the current record's "
-               "name, bind address and profile bytes; every writeDeviceInfo call site of c2 (table re-read from the sources on every run) writes the kind its consumer reads, SvResync announces the kind of exactly the body it carries, and after any Script the server's view is the client's; after a migration hand-off (MigrateProfile, pipe, LoadContext, MvMigrate result; driven in-process on every run) Session.ID = Device.ID = the migrated ID on the new client and in the server's view, and no key rotation starts while the session is Moving, so the hand-off's key material is the client's at confirmation for every history of idle exchanges in the window. The model is tied to /repo on every run: ~3 500 (quick) generated sessions/orders over the boundary grid go through the real functions "
+               "name, bind address and profile bytes; every writeDeviceInfo call site of c2 (table re-read from the sources on every run) writes the kind its consumer reads, SvResync announces the kind of exactly the body it carries, and after any Script the server's view is the client's; after a migration hand-off (MigrateProfile, pipe, LoadContext, MvMigrate result; driven in-process on every run) Session.ID = Device.ID = the migrated ID on the new client and in the server's view, and no key rotation starts while the session is Moving, so the hand-off's key material is the client's at confirmation for every history of idle exchanges in the window; the server's proxy list survives the Migrate result; a Script reports every successful synchronising step whatever its final error. The model is tied to /repo on every run: ~3 700 (quick) generated sessions/orders over the boundary grid go through the real functions "
                "(bytes, receiver state, proxy list, unread remainder; payload, client and server state) and through the model inside Coq.",
     level_note="Proof is about the model; the tie to the code is differential (strength = the generator's, distribution in the evidence). Two defects found this way are repaired in /repo "
                "(KeyPair.Unmarshal short reads: 793ff50; task.Duration jitter clamp: ab1cb28); the theorem C12_keypair_single_read_refuted keeps the old reader's failure. "
